@@ -35,6 +35,9 @@ pub enum Step {
     TcpConnect { id: u32, host: usize, ip: String, port: PortRef, synack_hold: u8 },
     /// close a socket (for a TCP connection: both ends)
     Close { sock: u32 },
+    /// drop the connecting end of a TCP connection and run no wire round: the stack still has to close it
+    /// (FIN not even sent yet) while the following steps bind; the accepted end stays open
+    CloseNoSettle { sock: u32 },
     /// bind and drop `n` UDP `0.0.0.0:0` sockets: rotates the ephemeral cursor
     Spin { host: usize, n: u32 },
     /// bind `count` consecutive fixed ports starting at `first` on one address and keep them
@@ -62,6 +65,7 @@ impl Step {
             Step::UdpConnect { .. } => "uconn",
             Step::TcpConnect { .. } => "tconn",
             Step::Close { .. } => "close",
+            Step::CloseNoSettle { .. } => "closens",
             Step::Spin { .. } => "spin",
             Step::Fill { .. } => "fill",
             Step::ZeroMany { .. } => "zeros",
@@ -118,6 +122,10 @@ struct Ctx<'a> {
     last_zero_port: Vec<Option<u16>>,
     accept_flag: WakeFlag,
     buf: Vec<Packet>,
+    /// (host, port) of connections dropped without a wire round while their accepted end stays open: they
+    /// linger in the stack (FIN_WAIT2 until the peer closes or the stack gives up), and a bind to exactly
+    /// that port may or may not fail meanwhile (reclamation timing is C13's subject)
+    lingering: Vec<(usize, u16)>,
 }
 
 fn in_eph(p: u16) -> bool {
@@ -199,7 +207,10 @@ impl<'a> Ctx<'a> {
     /// Execute one bind against kernel and model; returns the socket and its actual address when
     /// both agree on success. The caller decides where the socket is kept.
     fn bind_judged(&mut self, what: &str, quiet: bool, h: usize, proto: Proto, ip: IpAddr, port: u16) -> Option<(RSock, SocketAddr)> {
-        let exp = if port == 0 { self.m.bind_zero(h, proto, ip) } else { self.m.bind_fixed(h, proto, ip, port) };
+        let mut exp = if port == 0 { self.m.bind_zero(h, proto, ip) } else { self.m.bind_fixed(h, proto, ip, port) };
+        if port != 0 && proto == Proto::Tcp && exp == BindExp::Ok && self.lingering.contains(&(h, port)) {
+            exp = BindExp::Either;
+        }
         let Some(res) = self.real_bind(h, proto, SocketAddr::new(ip, port)) else {
             self.herr = Some(format!("{what}: bind future was pending"));
             return None;
@@ -356,6 +367,23 @@ impl<'a> Ctx<'a> {
                 self.tcp_connect_step(i, *id, *host, SocketAddr::new(ip, port), *synack_hold);
             }
             Step::Close { sock } => self.close_step(i, *sock),
+            Step::CloseNoSettle { sock } => {
+                let is_stream = self.real.get(sock).map(|(_, s)| matches!(s, RSock::Stream(_))).unwrap_or(false);
+                if is_stream && *sock < SRV {
+                    if let Some((h, s)) = self.real.remove(sock) {
+                        if let Some(p) = self.m.get(h, *sock).map(|x| x.local.port()) {
+                            self.lingering.push((h, p));
+                        }
+                        self.d.on(h, || drop(s));
+                        self.m.remove(h, *sock);
+                        self.log.ev(format!("#{i} close id{sock} on h{h}, no wire round: the connection lingers in the stack"));
+                        self.log.tag("closens");
+                        self.rep.faults.inc("stream_dropped_and_left_lingering_while_ports_are_allocated");
+                    }
+                } else {
+                    self.log.ev(format!("#{i} closens id{sock} skipped"));
+                }
+            }
             Step::Spin { host, n } => {
                 let h = *host;
                 let ip: IpAddr = "0.0.0.0".parse().unwrap();
@@ -900,6 +928,8 @@ impl<'a> Ctx<'a> {
         let mut v: Vec<IpAddr> = self.d.addrs.iter().flatten().copied().collect();
         v.push("127.0.0.1".parse().unwrap());
         v.push("::1".parse().unwrap());
+        // every address of 127.0.0.0/8 is the host itself
+        v.push("127.0.0.2".parse().unwrap());
         for u in &self.sc.unknown {
             v.push(parse_ip(u));
         }
@@ -985,9 +1015,10 @@ impl<'a> Ctx<'a> {
                     // off-host, a specifically bound socket sending to loopback, a wildcard socket
                     // on a host without an address of the destination family
                     let lo_dst = dst.ip().is_loopback();
-                    if lip.is_loopback() && !lo_dst {
-                        continue;
-                    }
+                    // a loopback-bound socket sending off the loopback address: whether the datagram arrives is
+                    // not stated, but it may reach nobody else than the socket the destination address and port
+                    // select on the host that owns the address
+                    let lo_off_host = lip.is_loopback() && !lo_dst;
                     if !lip.is_unspecified() && !lip.is_loopback() && lo_dst {
                         continue;
                     }
@@ -998,6 +1029,19 @@ impl<'a> Ctx<'a> {
                     let tag = self.tag;
                     let src_ip = if lip.is_unspecified() { None } else { Some(lip) };
                     let mut exp = self.m.route_udp(h, src_ip, s.local.port(), dst);
+                    if lo_off_host {
+                        exp = match exp {
+                            UdpExp::Exactly(Some(x)) => UdpExp::OneOf(vec![None, Some(x)]),
+                            UdpExp::OneOf(mut v) => {
+                                if !v.contains(&None) {
+                                    v.push(None);
+                                }
+                                UdpExp::OneOf(v)
+                            }
+                            e => e,
+                        };
+                        self.rep.probes.inc("udp_probe_from_loopback_bound_socket_to_another_address");
+                    }
                     let Some((_, RSock::Udp(u))) = self.real.get(&s.id) else { continue };
                     let bytes = tag_bytes(tag);
                     let r = self.d.on(h, || if peer.is_some() { u.try_send(&bytes) } else { u.try_send_to(&bytes, dst) });
@@ -1402,6 +1446,7 @@ fn pick_bind_ip(rng: &mut Rng, hosts: &[Vec<String>], h: usize, unknown: &[Strin
     match rng.weighted(&[14, 10, 9, 6, 46, 10, 5]) {
         0 => "0.0.0.0".into(),
         1 => "::".into(),
+        2 if rng.chance(1, 4) => (*rng.pick(&["127.0.0.2", "127.9.8.7"])).into(),
         2 => "127.0.0.1".into(),
         3 => "::1".into(),
         4 => rng.pick(&hosts[h]).clone(),
@@ -1447,7 +1492,7 @@ impl Property for C17 {
             "when both AddrNotAvailable and AddrInUse apply, either is accepted".into(),
             "source address selection of wildcard-bound senders is the stack's choice: the observed source must be an address of the sending host; a connected UDP receiver is judged only when the source certainly is / is not its peer".into(),
             "not generated (text silent): loopback-bound sockets sending off-host, specifically bound sockets sending to loopback, sends from a host without an address of the destination family, sends from a connected UDP socket to a non-peer, SO_REUSEADDR/SO_REUSEPORT (not exposed by the shim)".into(),
-            "TCP connections are closed on both ends in one step and the wire is run until quiet before the model frees their ports (reclamation timing is C13's subject)".into(),
+            "TCP connections are closed on both ends and the wire is run until quiet before the model frees their ports (reclamation timing is C13's subject); one step kind drops the connecting end and runs no wire round at all: while that connection lingers, binds to port 0 must still succeed (with a port the model has free), whatever the stack does with the lingering port".into(),
             "connect to an address nobody owns must not succeed and nobody may accept it; its error kind is not judged".into(),
         ]
     }
@@ -1471,7 +1516,7 @@ impl Property for C17 {
         let mut next_id = 1u32;
         let n = rng.usize(3, 12);
         for _ in 0..n {
-            let k = rng.weighted(&[50, 9, 14, 20, 7, 7, 0, 5]);
+            let k = rng.weighted(&[50, 9, 14, 20, 7, 7, 0, 5, 2]);
             match k {
                 0 => {
                     let host = rng.below(nh as u64) as usize;
@@ -1561,6 +1606,32 @@ impl Property for C17 {
                             steps.push(Step::Bind { id, host: t.host, proto, ip, port: p });
                         }
                     }
+                }
+                8 => {
+                    // connect, drop the connecting end without letting the wire run, rotate the allocator once
+                    // round the range and ask for port 0: the lingering connection still holds its port
+                    let ls: Vec<usize> = (0..shadow.len()).filter(|&i| shadow[i].proto == Proto::Tcp && !shadow[i].conn).collect();
+                    if ls.is_empty() || nh < 2 {
+                        continue;
+                    }
+                    let t = shadow[*rng.pick(&ls)].clone();
+                    let others: Vec<usize> = (0..nh).filter(|h| *h != t.host).collect();
+                    let host = *rng.pick(&others);
+                    let ip = reach_ip(rng, &hosts, t.host, &t.ip, host);
+                    let id = next_id;
+                    next_id += 1;
+                    steps.push(Step::TcpConnect { id, host, ip: ip.clone(), port: t.port.clone(), synack_hold: 0 });
+                    steps.push(Step::CloseNoSettle { sock: id });
+                    steps.push(Step::Spin { host, n: EPH_SIZE as u32 - rng.range(1, 3) as u32 });
+                    for _ in 0..3 {
+                        let bid = next_id;
+                        next_id += 1;
+                        let bip = if ip.contains(':') { "::".to_string() } else { "0.0.0.0".to_string() };
+                        steps.push(Step::Bind { id: bid, host, proto: Proto::Tcp, ip: bip.clone(), port: 0 });
+                        shadow.push(Shadow { id: bid, host, proto: Proto::Tcp, ip: bip, port: PortRef::Of(bid), conn: false });
+                    }
+                    // the accepted end is still open
+                    shadow.push(Shadow { id: id + SRV, host: t.host, proto: Proto::Tcp, ip: t.ip.clone(), port: t.port.clone(), conn: true });
                 }
                 7 => {
                     // connect to a listener on a fixed port, close the connection (one end after the other, the
@@ -1652,6 +1723,7 @@ impl Property for C17 {
             last_zero_port: vec![None; addrs.len()],
             accept_flag: WakeFlag::new(),
             buf: Vec::new(),
+            lingering: Vec::new(),
         };
         let r = core::catch(|| execute(&mut cx));
         let Ctx { d, real, bulk_real, log, mut rep, mut v, herr, nontrivial, .. } = cx;
